@@ -7,6 +7,7 @@ CONSTANTS
   MaxChan = 5
   CanClose = TRUE
   Cancels <- mcCancels
+  ProbeFirst = FALSE
 VIEW view
 INVARIANTS NoLostWakeup Caused TokenMutex
 PROPERTY Live
